@@ -72,6 +72,20 @@ impl<'a> ZoneHydrator<'a> {
             }
         }
 
+        // Zones produced by an index pruner carry no uid, zones produced by a full-scan
+        // fallback (missing index, ">90% of zones matched") do. In a mixed list the untagged
+        // zones must not be dropped: they belong to the query's own event type.
+        if !zones_by_uid.is_empty() && candidate_zones.iter().any(|z| z.uid().is_none()) {
+            if let Some(uid) = self.plan.event_type_uid().await {
+                let untagged = candidate_zones
+                    .iter()
+                    .enumerate()
+                    .filter(|(_, z)| z.uid().is_none())
+                    .map(|(idx, _)| idx);
+                zones_by_uid.entry(uid).or_default().extend(untagged);
+            }
+        }
+
         if zones_by_uid.is_empty() {
             if matches!(self.plan.event_scope(), EventScope::Wildcard { .. })
                 && tracing::enabled!(tracing::Level::WARN)
